@@ -4,15 +4,20 @@
    each added range must move the verdicts monotonically, and the range operators must obey
    their algebra (le = lt or eq, the r-forms are the plain forms within one version, ...).      *)
 EXTENDS Glsa_Cases, TLC
-CONSTANTS MaxV, MaxU
-MCPool == {p \in Pool : p.keywords = {"x86"}}      \* (the arch dimension is covered by Entries / the random direction)
+CONSTANTS MaxV, MaxU, Small
+\* (the arch dimension is covered by Entries / the random direction; Small = a sub-pool for longer entries)
+MCPool == {p \in Pool : p.keywords = {"x86"} /\ (Small => p.ver \in {v12, v12r1, v12r2, v123, v120, v13r1})}
+MCRanges == IF Small THEN {r \in RangePool : \/ (~r.glob /\ r.ver = v12r2)
+                                              \/ (~r.glob /\ r.ver = v12 /\ r.slot = "" /\ r.op \in {"rge", "rle", "rlt", "eq", "ge"})
+                                              \/ (r.glob /\ r.ver = v12)}
+            ELSE RangePool
 VARIABLES vuln, unaff
 vars == <<vuln, unaff>>
 E(vu, un) == Entry("c/p", {"x86", "arm"}, vu, un)
 Init == vuln = <<>> /\ unaff = <<>>
 AddV(r) == Len(vuln) < MaxV /\ vuln' = Append(vuln, r) /\ UNCHANGED unaff
 AddU(r) == Len(unaff) < MaxU /\ unaff' = Append(unaff, r) /\ UNCHANGED vuln
-Next == \E r \in RangePool : AddV(r) \/ AddU(r)
+Next == \E r \in MCRanges : AddV(r) \/ AddU(r)
 Spec == Init /\ [][Next]_vars
 
 PointwiseIsSetAlgebra ==
